@@ -1,1 +1,551 @@
-//! SP engine (scripted peer) — filled in below.
+//! SP engine: one real `UtpSocket` against a scripted peer. The harness speaks raw uTP
+//! datagrams built with its own encoder and performs the handshake by hand (either direction).
+//! Socket <-> peer latency is zero; steps are separated by >= 1 ms of virtual time, and the
+//! runtime runs every task to quiescence before the clock advances, so every reaction that
+//! needs no timer carries the timestamp of its stimulus.
+
+use std::{collections::BTreeMap, net::SocketAddr, sync::Arc, time::Duration};
+
+use parking_lot::Mutex;
+use serde::{Deserialize, Serialize};
+use tokio::sync::mpsc::UnboundedSender;
+
+use super::{
+    Net, NetPlan, SockCfg, WirePredicates, WireRec, addr,
+    app::{AppRec, EndpointLog, ROp, SharedLog, Stream, WOp, run_reader, run_writer},
+    new_socket, run_sim, take_wedge,
+};
+use crate::engine::splitmix64;
+use crate::model::{
+    refparse::{self, RefPacket},
+    seq::dist,
+};
+
+#[derive(Clone, Debug, Serialize, Deserialize, PartialEq)]
+pub enum PeerOp {
+    /// data packet with seq = next_seq + dseq (dseq == 0 advances next_seq); the length of a
+    /// seq is fixed the first time it is used
+    Data { dseq: i16, len: u16 },
+    /// pure ST_STATE: ack_nr = highest seq seen from the socket − back
+    Ack { back: i16, wnd: u32, sack: Option<Vec<u8>> },
+    /// repeat the last pure ACK unchanged n times (1 ms apart)
+    DupAck(u8),
+    /// ST_FIN with seq = next_seq + dseq
+    Fin { dseq: i16 },
+    /// ST_RESET; ack_nr = the socket's FIN seq if seen (and ack_fin), else highest seen
+    Reset { ack_fin: bool },
+    /// duplicate of the peer's SYN (incoming connections)
+    SynDup,
+    /// arbitrary bytes
+    Raw(Vec<u8>),
+    /// well-formed packet with explicit fields relative to the connection
+    /// (type, seq offset from next_seq, ack offset from highest seen, wnd, sack, conn-id delta, payload len)
+    Crafted { ptype: u8, dseq: i16, dack: i16, wnd: u32, sack: Option<Vec<u8>>, did: i8, len: u16 },
+}
+
+#[derive(Clone, Debug, Serialize, Deserialize, PartialEq)]
+pub enum Step {
+    Peer(PeerOp),
+    W(WOp),
+    R(ROp),
+    /// advance virtual time by ms (>= 1)
+    Adv(u32),
+}
+
+#[derive(Clone, Debug, Serialize, Deserialize)]
+pub struct SpCase {
+    pub sock: SockCfg,
+    /// true: the peer connects to the socket (socket accepts)
+    pub incoming: bool,
+    pub peer_isn: u16,
+    /// connection id used in the peer's SYN (incoming only)
+    pub conn_id: u16,
+    /// window the peer advertises in its handshake packet
+    pub peer_wnd: u32,
+    /// send the packet that completes the handshake (incoming: first STATE acking the SYN-ACK)
+    pub complete_handshake: bool,
+    pub key: u64,
+    pub steps: Vec<Step>,
+    /// virtual ms to run after the last step
+    pub linger_ms: u32,
+    /// disciplined peer: a Data op is skipped (and counted) when it would exceed the window
+    /// last advertised by the socket or the reassembly slot capacity
+    #[serde(default)]
+    pub discipline: bool,
+}
+
+#[derive(Clone, Debug)]
+pub struct PeerSent {
+    pub log_idx: usize,
+    pub t_us: u64,
+    pub pkt: Option<RefPacket>,
+}
+
+#[derive(Clone, Debug, Default)]
+pub struct SpResult {
+    pub log: Vec<WireRec>,
+    pub app: Vec<AppRec>,
+    pub read_data: Vec<u8>,
+    pub written: u64,
+    pub established: bool,
+    pub handshake_err: Option<String>,
+    /// connection id in packets peer -> socket / socket -> peer
+    pub id_to_sock: u16,
+    pub id_to_peer: u16,
+    /// first data seq of the socket / of the peer
+    pub sock_first_seq: Option<u16>,
+    pub peer_first_seq: u16,
+    /// seq -> payload length chosen by the peer
+    pub peer_lens: BTreeMap<u16, u16>,
+    pub peer_fin_seq: Option<u16>,
+    pub preds: WirePredicates,
+    pub t_end_us: u64,
+    pub t_steps_end_us: u64,
+    pub lib_tasks_end: i64,
+    pub wedge: bool,
+    pub sock_addr: Option<SocketAddr>,
+    pub peer_addr: Option<SocketAddr>,
+    /// log index at which the handshake prefix ended
+    pub steps_from_idx: usize,
+    pub eof: bool,
+    pub read_err: Option<String>,
+    pub write_err: Option<String>,
+    /// Data ops skipped by the disciplined peer
+    pub skipped_data_ops: u32,
+    /// log indices of peer data packets in the order sent: (log idx, seq)
+    pub peer_data_sent: Vec<(usize, u16)>,
+}
+
+/// payload of the peer's seq `seq`: keyed by (key, seq, index) so that the expected stream is
+/// the concatenation in seq order whatever the arrival order was
+pub fn peer_payload(key: u64, seq: u16, len: usize) -> Vec<u8> {
+    let k = splitmix64(key ^ ((seq as u64) << 32) ^ 0xfeed);
+    (0..len).map(|i| (splitmix64(k ^ (i as u64 >> 3)) >> ((i & 7) * 8)) as u8).collect()
+}
+
+struct Peer {
+    net: Net,
+    me: SocketAddr,
+    sock: SocketAddr,
+    id_to_sock: u16,
+    key: u64,
+    next_seq: u16,
+    lens: BTreeMap<u16, u16>,
+    fin_seq: Option<u16>,
+    fin_seqs: std::collections::BTreeSet<u16>,
+    /// highest seq (DATA or FIN) seen from the socket, and its FIN seq
+    sock_first: Option<u16>,
+    sock_high: Option<u16>,
+    sock_fin: Option<u16>,
+    cursor: usize,
+    /// latest ack_nr / wnd seen in a packet from the socket
+    sock_ack: Option<u16>,
+    sock_wnd: u32,
+    last_ack: u16,
+    last_wnd: u32,
+    last_pure_ack: Option<RefPacket>,
+    syn: Option<RefPacket>,
+    sent: Vec<PeerSent>,
+}
+
+impl Peer {
+    fn observe(&mut self) {
+        let (me, sock) = (self.me, self.sock);
+        let cursor = self.cursor;
+        let mut upd: Vec<(u8, u16)> = vec![];
+        let mut ackwnd = None;
+        let n = self.net.with_log(|log| {
+            for r in &log[cursor..] {
+                if r.src == sock && r.dst == me && r.from_stack {
+                    if let Some(p) = &r.pkt {
+                        if p.ptype != refparse::ST_SYN {
+                            ackwnd = Some((p.ack, p.wnd));
+                        }
+                        if p.ptype == refparse::ST_DATA || p.ptype == refparse::ST_FIN {
+                            upd.push((p.ptype, p.seq));
+                        }
+                    }
+                }
+            }
+            log.len()
+        });
+        self.cursor = n;
+        if let Some((a, w)) = ackwnd {
+            self.sock_ack = Some(a);
+            self.sock_wnd = w;
+        }
+        for (t, s) in upd {
+            if self.sock_first.is_none() {
+                self.sock_first = Some(s);
+            }
+            if self.sock_high.is_none_or(|h| dist(s, h) > 0) {
+                self.sock_high = Some(s);
+            }
+            if t == refparse::ST_FIN {
+                self.sock_fin = Some(s);
+            }
+        }
+    }
+
+    fn base(&self, ptype: u8) -> RefPacket {
+        RefPacket {
+            ptype,
+            version: 1,
+            conn_id: self.id_to_sock,
+            ts: self.net.now_us() as u32,
+            ts_diff: 0,
+            wnd: self.last_wnd,
+            seq: self.next_seq,
+            ack: self.last_ack,
+            exts: vec![],
+            payload: vec![],
+        }
+    }
+
+    fn send(&mut self, p: RefPacket) {
+        let bytes = refparse::encode(&p);
+        self.send_raw(bytes);
+    }
+
+    fn send_raw(&mut self, bytes: Vec<u8>) {
+        let idx = self.net.log_len();
+        let t = self.net.now_us();
+        let pkt = refparse::parse_message(&bytes).ok();
+        self.net.inject(self.me, self.sock, bytes, 0);
+        self.sent.push(PeerSent { log_idx: idx, t_us: t, pkt });
+    }
+
+    fn ack_base(&self, expected_first: u16) -> u16 {
+        self.sock_high.unwrap_or(expected_first.wrapping_sub(1))
+    }
+}
+
+async fn settle() {
+    tokio::time::sleep(Duration::from_millis(1)).await;
+}
+
+pub fn run(case: &SpCase, trace: bool) -> SpResult {
+    let case = case.clone();
+    run_sim(async move {
+        let t0 = tokio::time::Instant::now();
+        let net = Net::new(NetPlan { lat_ms: (0, 0), ..NetPlan::default() }, trace);
+        let (sock, _token) = new_socket(&net, 0, &case.sock);
+        let sock_addr = addr(case.sock.v6, 0);
+        let peer_addr = addr(case.sock.v6, 1);
+        net.add_scripted(peer_addr);
+        let mut res = SpResult { sock_addr: Some(sock_addr), peer_addr: Some(peer_addr), ..Default::default() };
+        let applog: SharedLog = Arc::new(Mutex::new(EndpointLog { keep_data: true, ..Default::default() }));
+
+        let mut peer = Peer {
+            net: net.clone(),
+            me: peer_addr,
+            sock: sock_addr,
+            id_to_sock: 0,
+            key: case.key,
+            next_seq: 0,
+            lens: BTreeMap::new(),
+            fin_seq: None,
+            fin_seqs: Default::default(),
+            sock_first: None,
+            sock_high: None,
+            sock_fin: None,
+            cursor: 0,
+            sock_ack: None,
+            // until the socket says otherwise its window is its configured receive buffer
+            sock_wnd: case.sock.rx_buf,
+            last_ack: 0,
+            last_wnd: case.peer_wnd,
+            last_pure_ack: None,
+            syn: None,
+            sent: vec![],
+        };
+
+        // ---- handshake
+        let (stream_tx, mut stream_rx) = tokio::sync::mpsc::unbounded_channel();
+        let expected_sock_first: u16;
+        if case.incoming {
+            let s2 = sock.clone();
+            tokio::spawn(async move {
+                let r = s2.accept().await;
+                let _ = stream_tx.send(r.map_err(|e| e.to_string()));
+            });
+            settle().await;
+            let syn = RefPacket { ptype: refparse::ST_SYN, version: 1, conn_id: case.conn_id, ts: net.now_us() as u32, ts_diff: 0, wnd: 0, seq: case.peer_isn, ack: 0, exts: vec![], payload: vec![] };
+            peer.id_to_sock = case.conn_id.wrapping_add(1);
+            res.id_to_sock = peer.id_to_sock;
+            res.id_to_peer = case.conn_id;
+            peer.next_seq = case.peer_isn.wrapping_add(1);
+            peer.syn = Some(syn.clone());
+            // the SYN itself travels with the SYN's connection id
+            let bytes = refparse::encode(&syn);
+            peer.send_raw(bytes);
+            settle().await;
+            // SYN-ACK
+            let synack = net.with_log(|log| log.iter().find(|r| r.src == sock_addr && r.from_stack).and_then(|r| r.pkt.clone()));
+            match synack {
+                Some(p) if p.ptype == refparse::ST_STATE => {
+                    expected_sock_first = p.seq;
+                    peer.last_ack = p.seq.wrapping_sub(1);
+                }
+                other => {
+                    res.handshake_err = Some(format!("no SYN-ACK from the socket (saw {other:?})"));
+                    res.log = net.log();
+                    return res;
+                }
+            }
+            if case.complete_handshake {
+                let mut st = peer.base(refparse::ST_STATE);
+                st.wnd = case.peer_wnd;
+                peer.last_pure_ack = Some(st.clone());
+                peer.send(st);
+                settle().await;
+            }
+        } else {
+            let s2 = sock.clone();
+            tokio::spawn(async move {
+                let r = s2.connect(peer_addr).await;
+                let _ = stream_tx.send(r.map_err(|e| e.to_string()));
+            });
+            settle().await;
+            let syn = net.with_log(|log| log.iter().find(|r| r.src == sock_addr && r.from_stack).and_then(|r| r.pkt.clone()));
+            let Some(syn) = syn.filter(|p| p.ptype == refparse::ST_SYN) else {
+                res.handshake_err = Some("socket did not emit a SYN".into());
+                res.log = net.log();
+                return res;
+            };
+            peer.id_to_sock = syn.conn_id;
+            res.id_to_sock = syn.conn_id;
+            res.id_to_peer = syn.conn_id.wrapping_add(1);
+            peer.next_seq = case.peer_isn;
+            peer.last_ack = syn.seq;
+            expected_sock_first = syn.seq.wrapping_add(1);
+            let mut st = peer.base(refparse::ST_STATE);
+            st.wnd = case.peer_wnd;
+            peer.last_pure_ack = Some(st.clone());
+            peer.send(st);
+            settle().await;
+        }
+        res.peer_first_seq = peer.next_seq;
+
+        // obtain the stream if the handshake produced one
+        let w_abort = Arc::new(tokio::sync::Notify::new());
+        let r_abort = Arc::new(tokio::sync::Notify::new());
+        let mut w_tx: Option<UnboundedSender<WOp>> = None;
+        let mut r_tx: Option<UnboundedSender<ROp>> = None;
+        let tag = |s: &'static str| if trace { Some(s) } else { None };
+        let mut try_take_stream = |w_tx: &mut Option<UnboundedSender<WOp>>, r_tx: &mut Option<UnboundedSender<ROp>>, res: &mut SpResult| {
+            if w_tx.is_some() || res.handshake_err.is_some() {
+                return;
+            }
+            match stream_rx.try_recv() {
+                Ok(Ok(stream)) => {
+                    let (r, w) = stream.split();
+                    let (wt, wr) = tokio::sync::mpsc::unbounded_channel();
+                    let (rt, rr) = tokio::sync::mpsc::unbounded_channel();
+                    tokio::spawn(run_writer(w, wr, Stream::new(case.key, 0), applog.clone(), t0, tag("W"), w_abort.clone()));
+                    tokio::spawn(run_reader(r, rr, Stream::new(case.key, 9), applog.clone(), t0, tag("R"), r_abort.clone()));
+                    *w_tx = Some(wt);
+                    *r_tx = Some(rt);
+                    res.established = true;
+                }
+                Ok(Err(e)) => res.handshake_err = Some(e),
+                Err(_) => {}
+            }
+        };
+        try_take_stream(&mut w_tx, &mut r_tx, &mut res);
+        res.steps_from_idx = net.log_len();
+
+        // ---- steps
+        for step in &case.steps {
+            peer.observe();
+            try_take_stream(&mut w_tx, &mut r_tx, &mut res);
+            if trace {
+                println!("        step t={:.3}ms {:?}", net.now_us() as f64 / 1000.0, step);
+            }
+            match step {
+                Step::Adv(ms) => {
+                    tokio::time::sleep(Duration::from_millis((*ms).max(1) as u64)).await;
+                    continue;
+                }
+                Step::W(op) => {
+                    if let Some(tx) = &w_tx {
+                        if matches!(op, WOp::Drop) {
+                            // takes effect at once, even when an earlier operation is still pending
+                            let _ = tx.send(WOp::Drop);
+                            w_abort.notify_one();
+                        } else {
+                            let _ = tx.send(op.clone());
+                        }
+                    }
+                }
+                Step::R(op) => {
+                    if let Some(tx) = &r_tx {
+                        let _ = tx.send(op.clone());
+                        if matches!(op, ROp::Drop) {
+                            r_abort.notify_one();
+                        }
+                    }
+                }
+                Step::Peer(op) => match op {
+                    PeerOp::Data { dseq, len } => {
+                        let seq = peer.next_seq.wrapping_add(*dseq as u16);
+                        if peer.fin_seqs.iter().any(|f| dist(seq, *f) >= 0) {
+                            // a sequence number has one meaning, and the FIN is the last number of
+                            // a stream: never data on or beyond a FIN's number
+                            res.skipped_data_ops += 1;
+                            settle().await;
+                            continue;
+                        }
+                        if case.discipline {
+                            // bytes the peer has in flight beyond the socket's latest ack
+                            let a = peer.sock_ack.unwrap_or(res.peer_first_seq.wrapping_sub(1));
+                            let off = dist(seq, a) - 1; // slot offset from the next expected seq
+                            let l = peer.lens.get(&seq).copied().unwrap_or((*len).max(1)) as u64;
+                            let inflight: u64 = peer.lens.iter().filter(|(s, _)| dist(**s, a) > 0 && **s != seq).map(|(_, l)| *l as u64).sum();
+                            let cap = (case.sock.rx_buf as usize / case.sock.min_payload().max(1)).max(1) as i32;
+                            let already = peer.lens.contains_key(&seq);
+                            if off < 0 && !already || off >= cap.min(60000) || inflight + l > peer.sock_wnd as u64 || (peer.fin_seq.is_some() && !already) {
+                                res.skipped_data_ops += 1;
+                                settle().await;
+                                continue;
+                            }
+                        }
+                        let len = *peer.lens.entry(seq).or_insert((*len).max(1));
+                        res.peer_data_sent.push((net.log_len(), seq));
+                        let mut p = peer.base(refparse::ST_DATA);
+                        p.seq = seq;
+                        p.payload = peer_payload(peer.key, seq, len as usize);
+                        if *dseq == 0 {
+                            peer.next_seq = peer.next_seq.wrapping_add(1);
+                        }
+                        peer.send(p);
+                    }
+                    PeerOp::Ack { back, wnd, sack } => {
+                        let mut p = peer.base(refparse::ST_STATE);
+                        p.ack = peer.ack_base(expected_sock_first).wrapping_sub(*back as u16);
+                        p.wnd = *wnd;
+                        if let Some(s) = sack {
+                            p.exts.push((1, s.clone()));
+                        }
+                        peer.last_ack = p.ack;
+                        peer.last_wnd = *wnd;
+                        peer.last_pure_ack = Some(p.clone());
+                        peer.send(p);
+                    }
+                    PeerOp::DupAck(n) => {
+                        for i in 0..*n {
+                            if let Some(mut p) = peer.last_pure_ack.clone() {
+                                p.ts = net.now_us() as u32;
+                                peer.send(p);
+                            }
+                            if i + 1 < *n {
+                                settle().await;
+                            }
+                        }
+                    }
+                    PeerOp::Fin { dseq } => {
+                        if case.discipline && (peer.fin_seq.is_some() || *dseq != 0 || peer.lens.keys().any(|s| dist(*s, peer.next_seq) >= 0)) {
+                            res.skipped_data_ops += 1;
+                            settle().await;
+                            continue;
+                        }
+                        let seq = peer.next_seq.wrapping_add(*dseq as u16);
+                        if peer.lens.keys().any(|d| dist(*d, seq) >= 0) || peer.fin_seqs.iter().any(|f| *f != seq) {
+                            // the FIN takes one number, above every data number ever used
+                            res.skipped_data_ops += 1;
+                            settle().await;
+                            continue;
+                        }
+                        peer.fin_seqs.insert(seq);
+                        let mut p = peer.base(refparse::ST_FIN);
+                        p.seq = seq;
+                        if *dseq == 0 {
+                            peer.next_seq = peer.next_seq.wrapping_add(1);
+                            peer.fin_seq.get_or_insert(seq);
+                        }
+                        peer.send(p);
+                    }
+                    PeerOp::Reset { ack_fin } => {
+                        let mut p = peer.base(refparse::ST_RESET);
+                        p.ack = match (ack_fin, peer.sock_fin) {
+                            (true, Some(f)) => f,
+                            _ => peer.ack_base(expected_sock_first),
+                        };
+                        peer.send(p);
+                    }
+                    PeerOp::SynDup => {
+                        if let Some(mut s) = peer.syn.clone() {
+                            s.ts = net.now_us() as u32;
+                            let b = refparse::encode(&s);
+                            peer.send_raw(b);
+                        }
+                    }
+                    PeerOp::Raw(b) => peer.send_raw(b.clone()),
+                    PeerOp::Crafted { ptype, dseq, dack, wnd, sack, did, len } => {
+                        let mut p = peer.base(*ptype % 5);
+                        p.seq = peer.next_seq.wrapping_add(*dseq as u16);
+                        p.ack = peer.ack_base(expected_sock_first).wrapping_add(*dack as u16);
+                        p.wnd = *wnd;
+                        p.conn_id = p.conn_id.wrapping_add(*did as u16);
+                        if let Some(s) = sack {
+                            p.exts.push((1, s.clone()));
+                        }
+                        if *len > 0 {
+                            p.payload = peer_payload(peer.key ^ 0xbad, p.seq, *len as usize);
+                        }
+                        peer.send(p);
+                    }
+                },
+            }
+            settle().await;
+        }
+        peer.observe();
+        try_take_stream(&mut w_tx, &mut r_tx, &mut res);
+        res.t_steps_end_us = net.now_us();
+        if case.linger_ms > 0 {
+            tokio::time::sleep(Duration::from_millis(case.linger_ms as u64)).await;
+        }
+        peer.observe();
+        try_take_stream(&mut w_tx, &mut r_tx, &mut res);
+
+        res.t_end_us = net.now_us();
+        // harness tasks alive: accept/connect task finished; writer + reader tasks if established
+        let harness = if res.established { 2 } else if res.handshake_err.is_some() { 0 } else { 1 };
+        res.lib_tasks_end = tokio::runtime::Handle::current().metrics().num_alive_tasks() as i64 - harness;
+        res.log = net.log();
+        {
+            let g = applog.lock();
+            res.app = g.recs.clone();
+            res.read_data = g.read_data.clone();
+            res.written = g.written;
+            res.eof = g.eof;
+            res.read_err = g.read_err.clone();
+            res.write_err = g.write_err.clone();
+        }
+        res.sock_first_seq = peer.sock_first.or(Some(expected_sock_first));
+        res.peer_lens = peer.lens.clone();
+        res.peer_fin_seq = peer.fin_seq;
+        res.preds = net.predicates();
+        res.wedge = take_wedge();
+        // keep the command channels alive until here so that the app tasks do not end early
+        drop((w_tx, r_tx));
+        res
+    })
+}
+
+/// Convenience: what the socket sent to the peer / the peer to the socket, in log order.
+#[derive(Clone, Debug)]
+pub enum Ev<'a> {
+    /// socket -> peer
+    Tx(&'a WireRec, &'a RefPacket),
+    /// peer -> socket
+    Rx(&'a WireRec, &'a RefPacket),
+}
+
+pub fn events<'a>(res: &'a SpResult) -> impl Iterator<Item = Ev<'a>> + 'a {
+    let sock = res.sock_addr.unwrap();
+    res.log.iter().filter_map(move |r| {
+        let p = r.pkt.as_ref()?;
+        if r.src == sock { Some(Ev::Tx(r, p)) } else if r.dst == sock { Some(Ev::Rx(r, p)) } else { None }
+    })
+}
